@@ -836,6 +836,10 @@ pub fn lane_env(seed: u64) -> Vec<Scenario> {
                             docs.push(pre);
                             docs.push(main);
                             docs.push(post);
+                            // (a decoy of the same name in the directory scrut is started in)
+                            let mut decoy = mk_doc(&mut g, &mut sim, "setup.md", &[Plan::new(Fate::Pass)]);
+                            decoy.main = false;
+                            docs.push(decoy);
                         }
                         _ => {
                             // the document limit expires in the second document
@@ -984,7 +988,13 @@ pub fn lane_runs(seed: u64) -> Vec<Scenario> {
                     c.main = false;
                     main.prepend = vec!["pre1.md".into(), "pre2.md".into()];
                     main.append = vec!["post.md".into()];
-                    docs.extend([a, b, main, c]);
+                    // decoys: files of the same names in the directory scrut is started in - paths
+                    // in the front-matter are relative to the DOCUMENT, these are never run
+                    let mut x = mk(&mut g, &mut sim, "pre1.md", Format::Md, &pass2[..1]);
+                    let mut y = mk(&mut g, &mut sim, "post.md", Format::Md, &pass2[..1]);
+                    x.main = false;
+                    y.main = false;
+                    docs.extend([a, b, main, c, x, y]);
                 }
                 "front-and-cli-unsorted" => {
                     // prepend/append lists from the front-matter AND the command line, several
@@ -1436,7 +1446,8 @@ pub fn lane_stream_layers(seed: u64) -> Vec<Scenario> {
 pub fn lane_cram_sizes(seed: u64) -> Vec<Scenario> {
     let mut out = vec![];
     let mut g = G::new(seed ^ 0xc2a3);
-    for (n, compact) in [(1usize, false), (2, false), (9, false), (10, false), (11, false), (13, false), (2, true), (4, true), (10, true), (13, true)] {
+    // (three-digit indices too: more than a hundred test cases in one Cram document)
+    for (n, compact) in [(1usize, false), (2, false), (9, false), (10, false), (11, false), (13, false), (2, true), (4, true), (10, true), (13, true), (101, false), (120, false), (102, true)] {
         for special in ["all-pass", "fail-last", "fail-first", "code-mid", "code-late", "skip-last", "exit-mid", "marker-like", "marker-like-prefix"] {
             let mut sim = base_sim(g.rng.next_u64());
             let mut tests = vec![];
